@@ -285,4 +285,42 @@ theorem ms_frame (ctx : Context Bytes) (keys : List Bytes) (m : Nat) (sigHash : 
     refine ⟨_, _, _, _, by omega, c5, fin, ?_⟩
     simp [falseResult, asBool_boolBytes]
 
+/-- what the script computes, spelled out: the counts are consistent, at least `m` items are on
+    the stack, and the top `m` of them match the keys (both lists in popped order) -/
+theorem msOk_eq (verify : Bytes → Bytes → Bytes → Bool) (keys : List Bytes) (m : Nat) (sigHash : Bytes) (stack : List Bytes)
+    (hk : ∀ k ∈ keys, k.length = 32) (hsl : sigHash.length = 32) (hn : keys.length < 2 ^ 50) (hm : m < two63) :
+    msOk verify keys m sigHash stack =
+      (decide (m ≤ keys.length ∧ (0 < keys.length → 0 < m) ∧ m ≤ stack.length) &&
+        matchSigs (fun p s => verify p sigHash s) (stack.take m) keys.reverse) := by
+  have hn63 : keys.length < two63 := by unfold two63; omega
+  have a1 : ¬ keys.length ≥ two63 := by omega
+  have a2 : ¬ (keys.length : Int) * 1024 > maxInt64 := by unfold maxInt64; omega
+  have a3 : ¬ m ≥ two63 := by omega
+  have hdrop : (keys.reverse ++ sigHash :: stack).drop keys.length = sigHash :: stack := by
+    rw [List.drop_left' (by simp)]
+  have htake : (keys.reverse ++ sigHash :: stack).take keys.length = keys.reverse := by
+    rw [List.take_left' (by simp)]
+  have hall : (keys.reverse.any fun p => p.length != 32) = false := by
+    rw [List.any_eq_false]
+    intro x hx
+    have := hk x (by simpa using hx)
+    simp [this]
+  unfold msOk cmsSpec
+  simp only [numItem_value keys.length hn63, a1, a2, if_false, cmsSpec1, numItem_value m hm, a3]
+  by_cases hc : m > keys.length ∨ (keys.length > 0 ∧ m = 0)
+  · simp only [hc, if_true]
+    have : ¬ (m ≤ keys.length ∧ (0 < keys.length → 0 < m) ∧ m ≤ stack.length) := by omega
+    simp [this]
+  · simp only [hc, if_false, cmsSpec2]
+    have hl : ¬ (keys.reverse ++ sigHash :: stack).length < keys.length := by simp
+    simp only [hl, if_false, hdrop, hsl, ne_eq, not_true_eq_false, htake, hall]
+    by_cases h3 : stack.length < m
+    · simp only [h3, if_true]
+      have : ¬ (m ≤ keys.length ∧ (0 < keys.length → 0 < m) ∧ m ≤ stack.length) := by omega
+      simp [this]
+    · simp only [h3, if_false]
+      have : m ≤ keys.length ∧ (0 < keys.length → 0 < m) ∧ m ≤ stack.length := by omega
+      rw [decide_eq_true this]
+      simp
+
 end BytomModel.Lemmas.SpendExec
